@@ -40,6 +40,21 @@ def comp(cls, **kw):
     return SymComp(G, cls, **kw)
 
 
+def structure_groups(rep, tier, timeout):
+    """the thickness / radius distributions of the structural groups: every spline reads its own control points and every
+    section-property input is the group's variable of that name (one element for the wingbox: its smooth maxima fork
+    once per airfoil data point and element)"""
+    from openaerostruct.structures.tube_group import TubeGroup
+    from openaerostruct.structures.wingbox_group import WingboxGroup
+    from props import groups
+
+    fam = "every component input is the group's variable of the same name"
+    sw = K.surface(2, 2, True, fem_model_type="wingbox")
+    groups.wiring_check(rep, lambda: WingboxGroup(surface=sw), "WingboxGroup", fam, timeout)
+    st = K.surface(2, 3, True)
+    groups.wiring_check(rep, lambda: TubeGroup(surface=st), "TubeGroup", fam, timeout)
+
+
 def run(tier, seed, only=None):
     rep = report.Report(PID, tier, seed)
     timeout = 20.0 if tier == "quick" else 60.0
@@ -278,6 +293,7 @@ def run(tier, seed, only=None):
     group_defaults(rep, tier, timeout)
     geometry_group_level(rep, tier, timeout)
     multisection_vs_single(rep, tier, timeout)
+    structure_groups(rep, tier, timeout)
     splines(rep)
     rep.bounds = {"meshes": [c[0] for c in cfgs], "ref_axis_pos": "symbolic in [0,1]"}
     rep.assumptions = ["real arithmetic", "input meshes have chordwise lines at constant y, strictly increasing y, the symmetric root on y = 0 at the last index "
